@@ -22,6 +22,7 @@ SHAPES = {
     "dd": ("tsd", "int", ("tsd", "int", ("ts",))),
     "bb": ("tsb", [("q", ("tsb", [("b", ("ts",)), ("a", ("ts",))])), ("l", ("ts",))]),
     "bl": ("tsb", [("g", ("tsl", 2, ("ts",))), ("l", ("ts",))]),
+    "qq": ("tsl", 2, ("tsl", 2, ("ts",))),
     "tss32": ("tss",),
     "tsd32": ("tsd", "int", ("ts",)),
 }
